@@ -101,7 +101,7 @@ type Sys struct {
 	Rec          *RecMeta
 	MC           metrics.Collector
 	Codec        wal.Codec // optional custom codec
-	CreateViol   []string // what createCheckVFS saw
+	CreateViol   []string  // what createCheckVFS saw
 	MetaCloseErr bool      // the metadata store's Close fails (once)
 	Cnt          *Expect   // if set, API calls made by the harness are tallied here (metrics oracle)
 }
